@@ -46,8 +46,8 @@ import (
 const wait = 5 * time.Second
 
 var concKeys = [][]string{
-	{"", "aa", "ab", "ba", "bb"},             // equal lengths: the model's size accounting is exact
-	{"", "a", "ab", "b", "b\x00"},            // a key that is a prefix of another, binary byte
+	{"", "aa", "ab", "ba", "bb"},                 // equal lengths: the model's size accounting is exact
+	{"", "a", "ab", "b", "b\x00"},                // a key that is a prefix of another, binary byte
 	{"", "\xfe", "\xfe\xff", "\xff", "\xff\xff"}, // binary, non-UTF-8 keys (table ranges in the JSON document)
 }
 var concVals = [][]string{
@@ -80,6 +80,7 @@ type world struct {
 	ckArr     map[int]*gate.Arrival
 	handles   map[int]recovery.CheckpointHandle
 	snap      map[int]map[int]int
+	dropped   map[int]bool // checkpoints the caller gave up
 	known     map[int]bool // checkpoints in this database instance's list
 	fsViol    []string
 	skipped   int
@@ -172,7 +173,7 @@ func (w *world) ignore(db *dkv.DB) {
 func newWorld(in *mbt.Input) *world {
 	w := &world{in: in, conc: in.CfgInt("Conc", 0), store: fsx.NewStore(),
 		ckWait: map[int]func() (recovery.CheckpointHandle, error){}, ckArr: map[int]*gate.Arrival{},
-		handles: map[int]recovery.CheckpointHandle{}, snap: map[int]map[int]int{}, known: map[int]bool{}}
+		handles: map[int]recovery.CheckpointHandle{}, snap: map[int]map[int]int{}, known: map[int]bool{}, dropped: map[int]bool{}}
 	w.s = gate.New("dkv.flush.start", "dkv.flush.swap", "dkv.compact.pick", "dkv.compact.swap",
 		"dkv.get.between", "dkv.scan.between", "dkv.ckpt.saveWal", "dkv.ckpt.saveDoc")
 	verifhook.Install(w.hook, func(name string, def int64) int64 {
@@ -486,9 +487,14 @@ func (w *world) checkHandles(res *mbt.Result, bi, si int) *mbt.Violation {
 	ret := w.retainedIDs()
 	ids := []int{}
 	for id := range w.handles {
-		if ret[id] {
-			ids = append(ids, id)
+		if w.dropped[id] {
+			continue
 		}
+		if !ret[id] {
+			return &mbt.Violation{Property: "C08", Behaviour: bi, Step: si,
+				What: fmt.Sprintf("the completed handle of checkpoint %d names a checkpoint that is not in the saved checkpoint document although the caller never dropped it (retained in document: %v)", id, ret), Expected: w.snap[id]}
+		}
+		ids = append(ids, id)
 	}
 	sort.Ints(ids)
 	nkeys := w.in.CfgInt("NKeys", 3)
@@ -763,6 +769,17 @@ func replay(bi int, beh []mbt.Step, in *mbt.Input, res *mbt.Result) {
 			for _, i := range st.Ints("ids") {
 				ids = append(ids, uint64(i))
 			}
+			top := uint64(0)
+			named := map[int]bool{}
+			for _, i := range ids {
+				top = max(top, i)
+				named[int(i)] = true
+			}
+			for id := range w.known {
+				if !named[id] && uint64(id) < top {
+					w.dropped[id] = true
+				}
+			}
 			before := w.savedDoc(w.store.Read)
 			if err := w.db.UpdateRetainedCheckpoints(ids); err != nil {
 				machinery(si, err)
@@ -809,6 +826,16 @@ func replay(bi int, beh []mbt.Step, in *mbt.Input, res *mbt.Result) {
 			}
 			old = nil
 			w.flushArr, w.compArr, w.rdArr = nil, nil, nil
+			for k := range w.known {
+				if k != id {
+					w.dropped[k] = true
+				}
+			}
+			for k := range w.handles {
+				if k != id {
+					w.dropped[k] = true
+				}
+			}
 			w.known = map[int]bool{id: true}
 			w.gen++
 			w.view = w.store.View(fmt.Sprintf("g%d", w.gen), "/db")
